@@ -371,7 +371,9 @@ func c15script(c *ctx, idx int) {
 				if len(pks) == 0 {
 					continue
 				}
-				sort.Slice(pks, func(i, j int) bool { return pks[i].rec < pks[j].rec || (pks[i].rec == pks[j].rec && pks[i].sid < pks[j].sid) })
+				sort.Slice(pks, func(i, j int) bool {
+					return pks[i].rec < pks[j].rec || (pks[i].rec == pks[j].rec && pks[i].sid < pks[j].sid)
+				})
 				pk := pks[r.intn(len(pks))]
 				rec := rig.recs[pk.rec]
 				before := server.VerifNumSession(rec)
